@@ -175,8 +175,12 @@ Record ctxcfg := mkCC {
   cc_parent : env         (* os.environ *)
 }.
 
-(** what the runner's [start] received for one call *)
-Definition call := option (string * oval * env).
+(** what the runner's [start] received *)
+Definition started := option (string * oval * env).
+(** what is observed of one run / sudo call inside a program: everything that is
+    observed of a single [run] (exception, [start] arguments, echo, resolved options
+    incl. timeout, streams, watchers, kind of return value) *)
+Definition call := outcome.
 
 
 (** * Boolean equalities *)
